@@ -135,6 +135,22 @@ def esc_sig(e):
     return exc_sig(e)
 
 
+_SELFTEST = None
+
+
+def guard(R):
+    """simulator / reference conformance vectors (transcripts of the repository's tests) once per process"""
+    global _SELFTEST
+    if _SELFTEST is None:
+        from vf.ref import felica_mac
+        from vf.sim import t3t as simmod
+        _SELFTEST = simmod.selftest() + felica_mac.selftest() + t3_attr.selftest()
+    for b in _SELFTEST:
+        R.inconc("t3t simulator conformance self-test failed: " + b)
+    if not _SELFTEST:
+        R.count("t3t_sim_selftest_ok")
+
+
 def classify(o, old, new):
     if o == new:
         return "new"
@@ -222,6 +238,7 @@ def c01_gen_layout(part, i, rng):
 
 
 def run_c01(desc, R, rng):
+    guard(R)
     for i in range(desc["n"]):
         lay = c01_gen_layout(desc["part"], i + desc.get("sub", 0) * 7919, rng)
         lengths = c01_lengths(lay["nmaxb"] * 16, lay["nbw"], rng)
@@ -405,6 +422,7 @@ def c02_gen(part, i, rng):
 
 
 def run_c02(desc, R, rng):
+    guard(R)
     for i in range(desc["n"]):
         case = c02_gen(desc["part"], i, rng)
         c02_case(case, R)
@@ -563,6 +581,7 @@ def c03_gen(part, i, rng):
 
 
 def run_c03(desc, R, rng):
+    guard(R)
     for i in range(desc["n"]):
         c03_case(c03_gen(desc["part"], i, rng), R)
 
@@ -721,6 +740,8 @@ def c08_gen_img(i, rng):
     if kind == "standard" and rng.random() < 0.7:
         ic = rng.choice([0x00, 0x01, 0x02, 0x08, 0x09, 0x0B, 0x0C, 0x0D, 0x20, 0x32, 0x35, 0x06, 0x14, 0xE0, 0xE1])
     lay["ic"] = ic
+    if rng.random() < 0.04:
+        lay["idm"] = bytes.fromhex("01FE") + bytes(rng.randrange(256) for _ in range(6))     # NFC-DEP target, not a tag
     case = {"family": FAM, "mode": "img", "layout": lay, "attr_class": cls}
     a = {"ver": 0x10, "nbr": lay["nbr"], "nbw": lay["nbw"], "nmaxb": lay["nmaxb"], "writef": 0,
          "rwflag": rng.choice([0, 1, 1]), "ln": lay["old_len"]}
@@ -786,6 +807,7 @@ def c08_model(case):
 
 
 def run_c08(desc, R, rng):
+    guard(R)
     part = desc["part"]
     if part == "img":
         for i in range(desc["n"]):
@@ -1120,12 +1142,30 @@ C16_LAYOUT_OVERRIDE = {
 }
 
 
+# further layouts per personality (thorough tier; variant 1 also for the NDEF operations of the quick tier)
+C16_VARIANTS = {
+    1: {"generic": {"nbr": 1, "nbw": 1, "nmaxb": 9, "old_len": 100}, "standard": {"nbr": 1, "nbw": 1, "nmaxb": 7, "old_len": 112,
+                                                                                 "ndef_first": False, "sensf_rd": False},
+        "lite": {"nbr": 1, "nmaxb": 6, "old_len": 90, "sensf_rd": False, "ndef_first": False},
+        "lites": {"nbr": 2, "nmaxb": 5, "old_len": 80, "ndef_first": False}},
+    2: {"generic": {"nbr": 15, "nbw": 13, "nmaxb": 30, "old_len": 0, "extra": 0}, "standard": {"nbr": 12, "nbw": 8, "nmaxb": 20,
+                                                                                              "old_len": 320, "other_systems": []},
+        "lite": {"nbr": 4, "nmaxb": 1, "old_len": 0}, "lites": {"nbr": 3, "nmaxb": 13, "old_len": 208}},
+}
+NDEF_OPS = ("ndef_read", "ndef_write", "ndef_write_empty", "has_changed", "dump", "is_present")
+
+
 def c16_cells(tier):
     cells = []
     for kind in ("lites", "lite", "standard", "generic"):        # costly (DES) personalities dealt out evenly
         for name, op in sorted(OPS.items()):
             if kind in op["kinds"]:
-                cells.append((kind, name))
+                cells.append((kind, name, 0))
+                if tier != "quick":
+                    cells.append((kind, name, 1))
+                    cells.append((kind, name, 2))
+                elif name in NDEF_OPS and kind in ("generic", "standard"):
+                    cells.append((kind, name, 1))
     return cells
 
 
@@ -1138,8 +1178,10 @@ def plan_c16(tier):
     return [{"cells": cells[i::nsh], "full": True, "timeout": 1500} for i in range(nsh)]
 
 
-def c16_layout(kind, opname):
+def c16_layout(kind, opname, variant=0):
     lay = dict(C16_LAYOUTS[kind])
+    if variant:
+        lay.update(C16_VARIANTS[variant][kind])
     lay.update(C16_LAYOUT_OVERRIDE.get((kind, opname), {}))
     return lay
 
@@ -1148,10 +1190,10 @@ class SetupError(Exception):
     pass
 
 
-def c16_execute(kind, opname, fault):
+def c16_execute(kind, opname, fault, variant=0):
     """one execution of the operation; fault = None | (pos, kindname, burst, flavour)
     -> dict(result | exc, image, answered, ncmd)"""
-    lay = c16_layout(kind, opname)
+    lay = c16_layout(kind, opname, variant)
     op = OPS[opname]
     model = build(lay)
     with fixed_challenge(), quiet():
@@ -1195,24 +1237,25 @@ def c16_execute(kind, opname, fault):
 
 
 def run_c16(desc, R, rng):
-    for kind, opname in desc["cells"]:
+    guard(R)
+    for kind, opname, variant in desc["cells"]:
         try:
-            c16_op(kind, opname, R, rng, full=desc.get("full", False))
+            c16_op(kind, opname, R, rng, full=desc.get("full", False), variant=variant)
         except SetupError as e:
             R.inconc("t3t C16: setup of a cell failed (%s)" % e)
 
 
 def replay_c16(case, R):
-    kind, opname = case["kind"], case["op"]
-    ref = c16_execute(kind, opname, None)
+    kind, opname, variant = case["kind"], case["op"], case.get("variant", 0)
+    ref = c16_execute(kind, opname, None, variant)
     if case.get("fault") is None:
-        c16_judge_ref(kind, opname, ref, R)
+        c16_judge_ref(kind, opname, ref, R, variant)
     else:
-        c16_judge(kind, opname, ref, tuple(case["fault"]), R)
+        c16_judge(kind, opname, ref, tuple(case["fault"]), R, variant)
 
 
-def c16_judge_ref(kind, opname, ref, R):
-    case = {"family": FAM, "kind": kind, "op": opname, "fault": None}
+def c16_judge_ref(kind, opname, ref, R, variant=0):
+    case = {"family": FAM, "kind": kind, "op": opname, "fault": None, "variant": variant}
     R.count("t3t_c16_repeat_checked")
     if ref["repeated"]:
         R.violation("t3t/c16/%s/answered-command-repeated" % opname,
@@ -1227,11 +1270,11 @@ def c16_judge_ref(kind, opname, ref, R):
     return True
 
 
-def c16_op(kind, opname, R, rng, full):
-    ref = c16_execute(kind, opname, None)
+def c16_op(kind, opname, R, rng, full, variant=0):
+    ref = c16_execute(kind, opname, None, variant)
     R.seen("t3t_c16_ops_seen", "%s/%s" % (kind, opname))
     R.count("t3t_c16_ops_covered")
-    ok = c16_judge_ref(kind, opname, ref, R)
+    ok = c16_judge_ref(kind, opname, ref, R, variant)
     n = len(ref["answered"])
     R.max("t3t_c16_positions_per_op", n)
     if not ok and "exc" in ref and n == 0:
@@ -1246,7 +1289,7 @@ def c16_op(kind, opname, R, rng, full):
                 for flavour in ("cmd_lost", "rsp_lost"):
                     if not full and n > 12 and burst in (1, 4) and flavour == "rsp_lost":
                         continue
-                    c16_judge(kind, opname, ref, (pos, kname, burst, flavour), R)
+                    c16_judge(kind, opname, ref, (pos, kname, burst, flavour), R, variant)
 
 
 def _is_mac_write(cmd):
@@ -1259,12 +1302,12 @@ def _is_mac_write(cmd):
     return len(cmd) > 18 and cmd[1] == 0x08 and cmd[13] == 1 and cmd[14:16] == b"\x80\x88" and cmd[18] != 0xFF
 
 
-def c16_judge(kind, opname, ref, fault, R):
+def c16_judge(kind, opname, ref, fault, R, variant=0):
     pos, kname, burst, flavour = fault
     op = OPS[opname]
-    got = c16_execute(kind, opname, fault)
-    case = {"family": FAM, "kind": kind, "op": opname, "fault": list(fault)}
-    R.case([kind, opname, list(fault)], nontrivial=got["injected"] > 0)
+    got = c16_execute(kind, opname, fault, variant)
+    case = {"family": FAM, "kind": kind, "op": opname, "fault": list(fault), "variant": variant}
+    R.case([kind, opname, variant, list(fault)], nontrivial=got["injected"] > 0)
     R.count("t3t_c16_cells")
     R.count("t3t_c16_faults_injected", got["injected"])
     R.seen("t3t_c16_kinds", kname + "/" + flavour)
